@@ -67,3 +67,39 @@ Theorem C05_iadd_frame : forall s a b, (vloc s a < length (vobjs s))%nat ->
   /\ val_of s' a = v_add (val_of s a) (val_of s b).
 Proof. exact iadd_frame. Qed.
 Print Assumptions C05_iadd_frame.
+
+(* Asset-level += (bundle[p] += other[p]) changes one entry of one bundle, to the pure normalised sum; all else is untouched *)
+Theorem C05_asset_iadd_frame : forall s a p b x y,
+  (snd (vobj s a) < length (mobjs s))%nat ->
+  dget (massets (val_of s a)) p = Some x -> dget (massets (val_of s b)) p = Some y ->
+  let s' := fst (exec s (HAIAdd a p b)) in
+  vobjs s' = vobjs s /\ vars s' = vars s
+  /\ (forall l, l <> snd (vobj s a) -> nth l (mobjs s') [] = nth l (mobjs s) [])
+  /\ dget (massets (val_of s' a)) p = Some (a_add x y)
+  /\ (forall p', p <> p' -> dget (massets (val_of s' a)) p' = dget (massets (val_of s a)) p').
+Proof. exact asset_iadd_frame. Qed.
+Print Assumptions C05_asset_iadd_frame.
+
+(* the sum it stores is exact per name and normalised *)
+Theorem C05_asset_add : forall x y n, wfd x -> wfd y ->
+  aget (a_add x y) n = aget x n + aget y n.
+Proof. intros. now apply a_add_get. Qed.
+Print Assumptions C05_asset_add.
+
+(* >= and > (evaluated by Python as the reflected <= and < of the right operand) are the component-wise relations too:
+   in particular two incomparable amounts satisfy neither a >= b nor b >= a *)
+Theorem C05_ge_gt : forall s a b,
+  (snd (exec s (HGe a b)) = OBool true <->
+     coin (val_of s b) <= coin (val_of s a)
+     /\ forall p n, content (massets (val_of s b)) p n <= content (massets (val_of s a)) p n)
+  /\ (snd (exec s (HGt a b)) = OBool true <->
+     (coin (val_of s b) <= coin (val_of s a)
+      /\ forall p n, content (massets (val_of s b)) p n <= content (massets (val_of s a)) p n)
+     /\ ~ (coin (val_of s b) = coin (val_of s a)
+           /\ forall p n, content (massets (val_of s b)) p n = content (massets (val_of s a)) p n)).
+Proof.
+  intros s a b. cbn [exec snd]. split.
+  - rewrite <- v_le_spec. split; [intros H; now inversion H | intros ->; reflexivity].
+  - rewrite <- v_lt_spec. split; [intros H; now inversion H | intros ->; reflexivity].
+Qed.
+Print Assumptions C05_ge_gt.
